@@ -208,6 +208,49 @@ theorem sortToml_perm {l₁ l₂ : List Toml} (hn : (l₁.map (·.dir)).Nodup) (
   have hb' : b ∈ l₁ := h.mem_iff.mpr ((mergeSort_perm l₂ _).mem_iff.mp hb)
   exact eq_of_dir_eq hn ha' hb' (partsLe_antisymm _ _ hab hba)
 
+/-! ### `_find_licenses` -/
+
+theorem foldl_findLicStep_none (ident : String → String) (ps : List String) :
+    ps.foldl (findLicStep ident) none = none := by
+  induction ps with
+  | nil => rfl
+  | cons p ps ih => simpa [findLicStep] using ih
+
+theorem foldl_findLicStep (ident : String → String) (ps : List String) (d0 : List (String × String))
+    (hn : (d0.map (·.1)).Nodup) :
+    ps.foldl (findLicStep ident) (some d0) =
+      if (d0.map (·.1) ++ ps.map ident).Nodup then some (d0 ++ ps.map fun p => (ident p, p)) else none := by
+  induction ps generalizing d0 with
+  | nil => simp [hn]
+  | cons p ps ih =>
+    rw [List.foldl_cons]
+    by_cases hc : ident p ∈ d0.map (·.1)
+    · have : ¬ (d0.map (·.1) ++ (p :: ps).map ident).Nodup := by
+        rw [List.nodup_append]
+        rintro ⟨_, _, h3⟩
+        exact h3 _ hc _ (by simp) rfl
+      simp only [findLicStep, List.contains_iff_mem, hc, if_true, foldl_findLicStep_none, this, if_false]
+    · have hn' : ((d0 ++ [(ident p, p)]).map (·.1)).Nodup := by
+        simp only [List.map_append, List.map_cons, List.map_nil]
+        rw [List.nodup_append]
+        refine ⟨hn, by simp, ?_⟩
+        intro a ha b hb
+        simp at hb; subst hb
+        rintro rfl; exact hc ha
+      have e1 : (d0 ++ [(ident p, p)]).map (·.1) ++ ps.map ident = d0.map (·.1) ++ (p :: ps).map ident := by
+        simp
+      have e2 : (d0 ++ [(ident p, p)]) ++ ps.map (fun p => (ident p, p)) =
+          d0 ++ (p :: ps).map fun p => (ident p, p) := by simp
+      simp only [findLicStep, List.contains_iff_mem, hc, if_false]
+      rw [ih _ hn', e1, e2]
+
+theorem findLicenses_eq (ident : String → String) (ps : List String) :
+    findLicenses ident ps =
+      if (ps.map ident).Nodup then some (ps.map fun p => (ident p, p)) else none := by
+  unfold findLicenses
+  rw [foldl_findLicStep _ _ _ (by simp)]
+  simp
+
 /-! ### the END language -/
 
 theorem matches_altList {alts : List Re} {s : Text} :
